@@ -14,6 +14,7 @@
 (*   bs, be whether s / e are character boundaries                         *)
 (*   ntok   number of lexer tokens the range tiles exactly, -1 if it cuts  *)
 (*          through a token (0 for an empty range)                         *)
+(*   modpath the range tiles exactly a module path IDENT ("/" IDENT)*       *)
 (*   os, oe for a focus range: the full range that must contain it         *)
 (*   lsp, sl, sc, el, ec, nl, l16s, l16e  the range after the server's own *)
 (*          conversion to LSP positions (line, UTF-16 column), the number  *)
@@ -42,7 +43,8 @@ WholeTokens(r) == /\ (r.kind \in NameLike => r.ntok = 1)
                   \* a definition target is a name / binder pattern (whole tokens) or, for a module, the start of its file
                   /\ (r.kind = "goto_focus" => (r.ntok >= 1 \/ (r.s = 0 /\ r.e = 0)))
                   \* a completion replaces the identifier being typed or nothing
-                  /\ (r.kind = "completion_source" => r.ntok \in {0, 1})
+                  \* ... or, inside an import, the whole module path written so far (`a/b/c`)
+                  /\ (r.kind = "completion_source" => (r.ntok \in {0, 1} \/ r.modpath))
 
 \* the same range as the client receives it (lsp = TRUE when the server's conversion was applied): both positions name an
 \* existing line of the client's copy and a column within it (UTF-16 units), start not after end
